@@ -1,7 +1,7 @@
 From Coq Require Import ZArith String List Bool Arith Lia.
 From NV Require Import Crash.Outcome Crash.NameReg.
 
-(* refuted on the unchanged tree: when the candidate and candidate1 are both taken, no amount of
+(* the loop before 26454e7, refuted: when the candidate and candidate1 are both taken, no amount of
    fuel suffices *)
 Lemma spin_orig_diverges : forall taken, taken 1 = true -> forall fuel s, spin_orig taken fuel s = None.
 Proof. intros taken H. induction fuel as [|f IH]; intros s; cbn; [reflexivity|]. rewrite H. apply IH. Qed.
